@@ -359,8 +359,9 @@ def partitioned(out, tier, seed):
         n = 24
         nd0 = rng.randint(1, 8)
         perm = rng.permutation(n)
-        dof0 = np.sort(perm[:nd0])
-        dof1 = np.sort(perm[nd0:])
+        # index lists in ascending order (as dof.partition returns them) and, every other case, in the caller's own order
+        dof0 = np.sort(perm[:nd0]) if c % 2 == 0 else perm[:nd0]
+        dof1 = np.sort(perm[nd0:]) if c % 2 == 0 else perm[nd0:]
         # make the free block unimodular: K11 = M M^T with unit lower triangular M; other blocks random integers
         M = np.eye(len(dof1), dtype=int) + np.diag(rng.randint(-1, 2, size=len(dof1) - 1), -1)   # bidiagonal: small inverse
         K = rng.randint(-2, 3, size=(n, n))
